@@ -9,7 +9,7 @@
     stack and port forms, in both modes.  Memory operands: C02.  The cells left out are exactly the
     known findings (refuted below on the model). *)
 From Coq Require Import List ZArith String Bool.
-From Gosk Require Import Base.Bytes Model.Ast Model.Asm Model.X86Enc Model.Encoder Spec.X86 Spec.Denote Check.C01 Lemmas.SweepLemmas.
+From Gosk Require Import Base.Bytes Model.Ast Model.Asm Model.X86Enc Model.Encoder Spec.X86 Spec.Denote Check.C01 Lemmas.SweepLemmas Lemmas.MemSweepLemmas.
 Import ListNotations.
 Local Open Scope Z_scope.
 
@@ -25,6 +25,13 @@ Theorem C01_stack : forall c, In c sweep_stack -> ok01 c = true.
 Proof. apply forallb_forall. exact sweep_stack_ok. Qed.
 Theorem C01_push_imm : forall c, In c sweep_push_imm -> ok01 c = true.
 Proof. apply forallb_forall. exact sweep_push_imm_ok. Qed.
+(* memory operands at statement level: every 16-bit shape and all 261 32-bit shapes x boundary displacements x carriers
+   (untyped load/store, r32 ALU, typed immediate forms), both modes; the displacement is universally quantified at the
+   ModR/M level in C02 *)
+Theorem C01_mem16 : forall c, In c sweep_mem16 -> ok013 c = true.
+Proof. apply forallb_forall. exact sweep_mem16_ok. Qed.
+Theorem C01_mem32 : forall c, In c sweep_mem32 -> ok013 c = true.
+Proof. apply forallb_forall. exact sweep_mem32_ok. Qed.
 Theorem C01_port : forall c, In c sweep_port -> ok01 c = true.
 Proof. apply forallb_forall. exact sweep_port_ok. Qed.
 Print Assumptions C01_port.
